@@ -49,6 +49,12 @@ CLAIMED.update({
                 text="The spec publishes the scripted return value of each getter exactly once per iteration in every mode (any order inside the feedback phase) and leaves the entry alone when the getter raises; TLC checks all-published-every-mode (mutation 'feedback_skipped_in_disabled' caught) and validates, at every wait of recorded histories, the values read back through NetworkTables for robot- and component-level getters (get_ prefix and explicit key=).",
                 tech="TLA+ spec MagicRobot + TLC exhaustive invariants; TLC batch trace validation with NetworkTables read-back; simulated behaviours replayed"),
 })
+CLAIMED.update({
+    "C15": dict(cat="model_checking", ref="DESIGN.md 4.3, 5/C15",
+                note="Trusted: TLC; in-process NetworkTables as the dashboard; the recorder harness/drivers/sa_driver.py. tm values are multiples of 1/64 s so float arithmetic is exact. One instance per generated class. Exhaustive runs bounded (evidence.tlc_runs).",
+                text="specs/StatefulAuto.tla states the timing contract (expiry only after the state ran, successor starts at the predecessor's expiry, initial_call on first call after entry, silent when finished, dashboard values read at on_enable); TLC checks it exhaustively on chain/loop/branch/single shapes over clock steps {1,2,5}, 2-3 periods, in-state next_state/done and dashboard edits; the pre-fix 'no_ran_guard' deviation is caught; executions of generated StatefulAutonomous subclasses (all 16 signatures) over several periods are validated call by call, and simulated spec behaviours are replayed.",
+                tech="TLA+ spec StatefulAuto + TLC exhaustive invariants/action properties; TLC batch trace validation; simulated behaviours replayed"),
+})
 
 m = {
     "version": 1,
